@@ -257,3 +257,33 @@ func Harness_C04_query_positions() {
 	vm.Assert("C04.query_no_error", err == nil)
 	vm.Assert("C04.query_sees_both_members", seen == 2 && len(hdrs) == 2)
 }
+
+// Harness_C04_fetch_seek_any_record_size: like fetch_seek but with the record size itself symbolic
+// (1..65536); decided by cvc5's integer encoding of bit-vectors (thorough tier only).
+func Harness_C04_fetch_seek_any_record_size() {
+	rs := vm.Int("rs", 1, 1<<16)
+	t := vm.NewTape("drive")
+	record := vm.Int("record", 0, 1<<16)
+	block := vm.Int("block", 0, 1<<16)
+	vm.Assume(block < rs)
+	startBlocks := int64(record)*int64(rs) + int64(block)
+	t.AddZeros(startBlocks * 512)
+	m := c04AddMember(t, "m", "/m", 0)
+	t.AddTrailer()
+	got := ""
+	err := Fetch(
+		config.DriveReaderConfig{Drive: t.OpenRead(), DriveIsRegular: true},
+		nil,
+		config.PipeConfig{RecordSize: rs},
+		config.CryptoConfig{},
+		nil, nil,
+		record, block, "", true,
+		func(hdr *config.Header) { got = hdr.Name },
+	)
+	vm.Assert("C04.fetch_any_rs_no_error", err == nil)
+	vm.Assert("C04.fetch_any_rs_right_member", got == m.Hdr.Name)
+}
+
+// (An index_step harness with a symbolic record size was tried and dropped: record*rs with both factors symbolic
+// inside the Index loop did not finish under z3, z3-new or cvc5's integer encoding within 600 s even for
+// rs <= 64, record <= 255; the concrete record-size set of Harness_C04_index_step is what is claimed.)
